@@ -123,12 +123,44 @@ var phKinds = map[string]reflect.Type{
 // phStart: an App with ONE holder whose only field has the given type and `value:"<text>"`.  outcome: `ok <value>` | `err`
 // | `panic` | `hang`; ran=false when Go's struct-tag syntax cannot carry the text.
 func phStart(yamlBytes []byte, kind, text string) (outcome string, detail string, ran bool) {
+	return phStartTag(yamlBytes, kind, "value", text)
+}
+
+// phWholePlaceholder: the value part is ONE placeholder `${inner}` (the closer of the first opener is its last byte) whose
+// inner text holds no comma and no quote: then `prop:"inner<args>"` is by definition the tag `value:"${inner}<args>"`
+func phWholePlaceholder(val string) (inner string, ok bool) {
+	if !strings.HasPrefix(val, "${") || !strings.HasSuffix(val, "}") {
+		return "", false
+	}
+	depth := 0
+	for i := 0; i < len(val); i++ {
+		switch val[i] {
+		case '{':
+			depth++
+		case '}':
+			depth--
+			if depth == 0 && i != len(val)-1 {
+				return "", false
+			}
+			if depth < 0 {
+				return "", false
+			}
+		}
+	}
+	inner = val[2 : len(val)-1]
+	if depth != 0 || inner == "" || strings.ContainsAny(inner, ",'\"`\\ \t") {
+		return "", false
+	}
+	return inner, true
+}
+
+func phStartTag(yamlBytes []byte, kind, tagName, text string) (outcome string, detail string, ran bool) {
 	typ, ok := phKinds[kind]
 	if !ok {
 		return "", "", false
 	}
-	tag := reflect.StructTag("value:" + strconv.Quote(text))
-	if got, ok := tag.Lookup("value"); !ok || got != text {
+	tag := reflect.StructTag(tagName + ":" + strconv.Quote(text))
+	if got, ok := tag.Lookup(tagName); !ok || got != text {
 		return "", "", false
 	}
 	t := reflect.StructOf([]reflect.StructField{{Name: "V", Type: typ, Tag: tag}})
@@ -287,6 +319,19 @@ func runPhWritten(c phWCase, w *hx.Writer) {
 		} else {
 			out.Tags = append(out.Tags, "aw-"+oa)
 		}
+		// (tenth round) the `prop` shorthand of the same tag: `prop:"K<args>"` IS `value:"${K}<args>"`
+		if inner, ok := phWholePlaceholder(c.val); ok && oa == ob && (args == "" || strings.HasPrefix(args, ",")) {
+			if oc, dc, ranC := phStartTag(yamlBytes, c.kind, "prop", inner+args); ranC {
+				out.Tags = append(out.Tags, "aw-prop-twin")
+				if oc == "hang" {
+					phHung = true
+				}
+				if oc != oa {
+					out.Oracle = fmt.Sprintf("FAIL placeholder-prop-shorthand a %s field tagged value:%q ends in [%s]; tagged with the shorthand prop:%q it ends in [%s %s] under the same configuration",
+						phKinds[c.kind], c.text, oa, inner+args, oc, dc)
+				}
+			}
+		}
 		if oa != ob {
 			show := func(o, d string) string {
 				if d != "" {
@@ -325,7 +370,7 @@ func phWrittenCorpus(w *hx.Writer) {
 	cfg := func() *cval {
 		return phCfgOf("region", "eu", "cache", phCfgOf("ttl", "#{60*60}", "label", "#{'cache-'+'${region}'}", "on", "#{${n} > 3 and not false}", "sizes", "#{[${n}, ${n}*2, 10]}",
 			"ratio", "#{${n} / 2}", "names", "#{['a', '${region}']}"), "n", 5, "ttl", "${cache.ttl}", "which", "ttl", "plain", "text", "sum", "#{${n}+${m:7}}", "inner", "#{2*3}",
-			"pick", "#{${n} > 3 ? 'big' : 'small'}", "len", "#{len('${region}')}", "comma", "a, b", "max", "#{max(${n}, 9)}")
+			"pick", "#{${n} > 3 ? 'big' : 'small'}", "len", "#{len('${region}')}", "comma", "a, b", "max", "#{max(${n}, 9)}", "w2", "cache")
 	}
 	for _, c := range [][2]string{
 		{"i", "${cache.ttl}"}, {"s", "${cache.ttl}"}, {"s", "${cache.label}"}, {"s", "${region}"}, {"i", "${cache.ttl},required"}, {"i", "${cache.ttl},validate=min=1 max=4000"},
@@ -337,6 +382,9 @@ func phWrittenCorpus(w *hx.Writer) {
 		// a wrapper inside another placeholder's default - arriving through a value, or written: the scanner's placeholders have
 		// brace-free contents, the enclosing text stays (oracles (a), (c) and the model only; the substitution abstains)
 		{"s", "${nope:${cache.ttl}}"}, {"s", "${nope:#{1+2}}"}, {"i", "${nope:#{1+2}}"}, {"s", "${cache.ttl:#{4}}"}, {"i", "${n:#{4}}"},
+		// (tenth round) a key that BEGINS with a nested placeholder, also as the `prop` shorthand of the same tag (aw-prop-twin)
+		{"i", "${${which}}"}, {"s", "${${which}}"}, {"i", "${${w2}.ttl}"}, {"s", "${${w2}.label}"}, {"i", "${${w2}.ttl},required"}, {"i", "${${w2}.${which}}"},
+		{"i", "${${nope:cache}.ttl}"}, {"s", "${${w2}.nope:dflt}"},
 	} {
 		runPhWritten(phWCase{kind: c[0], text: c[1], cfg: cfg(), tags: []string{"corpus", "written"}}, w)
 	}
